@@ -272,6 +272,15 @@ Theorem c05_float32_double_rounding_worst_case : exists a b, 0 < b /\
 Proof. exact float32_double_rounding_worst_case. Qed.
 Print Assumptions c05_float32_double_rounding_worst_case.
 
+(* the significand-level core of the one-ulp UPPER bound, proved: rounding t = N/D (in binary32 ulps of its binade) first on a grid g
+   times finer (g = 2^29 for binary64) and then to integers stays within the two integer neighbours of t, so it differs from the direct
+   rounding by at most one.  NOT formalised: that rne binary64 / the cast / rne binary32 of Gen/MetaC05Rne.v instantiate exactly this
+   (same binade, nested grids incl. subnormals, renormalisation at powers of two); the check verifies |c32 - rn32| <= 1 at run time *)
+Theorem c05_double_rounding_within_one : forall N D g, 0 <= N -> 0 < D -> 0 < g ->
+  -1 <= div_half_even (div_half_even (N * g) D) g - div_half_even N D <= 1.
+Proof. exact double_rounding_within_one. Qed.
+Print Assumptions c05_double_rounding_within_one.
+
 (* ---- boolean constants, full name and version, Python class constants ---- *)
 Theorem c05_bool_literal_denotes : forall b,
   bool_token_denotes (filter_literal_bool c_lang b) = Some b /\ bool_token_denotes (filter_literal_bool cpp_lang b) = Some b.
